@@ -10,7 +10,10 @@ import (
 	"sync"
 	"time"
 
+	"github.com/TarsCloud/TarsGo/tars"
 	"github.com/TarsCloud/TarsGo/tars/protocol"
+	"github.com/TarsCloud/TarsGo/tars/protocol/res/basef"
+	"github.com/TarsCloud/TarsGo/tars/protocol/res/requestf"
 	"github.com/TarsCloud/TarsGo/tars/transport"
 	"github.com/TarsCloud/TarsGo/tars/util/vhook"
 	"verifharness/internal/tr"
@@ -27,6 +30,14 @@ func (frSrvProto) InvokeTimeout(pkg []byte) []byte               { return nil }
 func (frSrvProto) GetCloseMsg() []byte                           { return nil }
 func (frSrvProto) DoClose(ctx context.Context)                   {}
 
+// the same, but framing is asked of the ServerProtocol the real server uses (tars.Protocol.ParsePackage, tars/tarsprotocol.go)
+type frSrvTarsProto struct {
+	frSrvProto
+	p *tars.Protocol
+}
+
+func (s frSrvTarsProto) ParsePackage(b []byte) (int, int) { return s.p.ParsePackage(b) }
+
 type frCliProto struct{}
 
 func (frCliProto) Recv(pkg []byte)                  {}
@@ -42,6 +53,7 @@ type frRun struct {
 	pkgs     int
 	other    int // packets seen on the other (healthy) connection
 	perr     bool
+	exited   bool // the client's receive loop of the observed connection has returned
 	hookHits map[string]int
 }
 
@@ -56,11 +68,11 @@ func frHook(point string, a ...interface{}) {
 	}
 	c, _ := a[0].(net.Conn)
 	want := map[string]string{"tcp.recv.read": "server", "tcp.handleConn": "server", "tcp.recv.parseError": "server",
-		"client.recv.read": "client", "client.recv.pkg": "client", "client.recv.parseError": "client"}[point]
+		"client.recv.read": "client", "client.recv.pkg": "client", "client.recv.parseError": "client", "client.recv.exit": "client"}[point]
 	if want == "" || want != fr.side || c == nil {
 		return
 	}
-	if !fr.match(c) {
+	if fr.match == nil || !fr.match(c) {
 		if point == "tcp.handleConn" || point == "client.recv.pkg" {
 			fr.other++
 		}
@@ -93,7 +105,19 @@ func frHook(point string, a ...interface{}) {
 	case "tcp.recv.parseError", "client.recv.parseError":
 		fr.perr = true
 		fr.rec.Emit("ParseError")
+	case "client.recv.exit":
+		fr.exited = true
 	}
+}
+
+func frLegal(d, maxLen int) bool { return d >= 4 && d <= maxLen }
+
+// frPhys is the number of bytes packet d occupies in the stream (an illegal header is followed by junk bytes that are never framed).
+func frPhys(d, maxLen, junk int) int {
+	if frLegal(d, maxLen) {
+		return d
+	}
+	return 4 + junk
 }
 
 func frStream(lens []int, maxLen, junk int) []byte {
@@ -102,10 +126,7 @@ func frStream(lens []int, maxLen, junk int) []byte {
 		h := make([]byte, 4)
 		binary.BigEndian.PutUint32(h, uint32(d))
 		b = append(b, h...)
-		n := d - 4
-		if d < 4 || d > maxLen {
-			n = junk
-		}
+		n := frPhys(d, maxLen, junk) - 4
 		for k := 0; k < n; k++ {
 			b = append(b, byte(i+1))
 		}
@@ -113,85 +134,289 @@ func frStream(lens []int, maxLen, junk int) []byte {
 	return b
 }
 
-// partition chooses chunk sizes for a stream of n bytes.
-func frPartition(rng *rand.Rand, n int, lens []int) []int {
-	var out []int
-	switch rng.Intn(6) {
-	case 0: // single bytes (capped: long streams switch to random chunks after 300 bytes)
-		for n > 0 && len(out) < 300 {
-			out = append(out, 1)
-			n--
+// frExpect: what a correct receiver has done once it has read the first sent bytes of the stream: the number of packets handed out
+// and whether the protocol error has been raised.
+func frExpect(lens []int, maxLen, junk, sent int) (want int, bad bool) {
+	pos := 0
+	for _, d := range lens {
+		if !frLegal(d, maxLen) {
+			return want, pos+4 <= sent
 		}
-	case 1: // everything at once
-		out = append(out, n)
-		n = 0
-	case 2: // cut inside every header
-		for _, d := range lens {
-			if n <= 0 {
-				break
-			}
-			c := 1 + rng.Intn(3)
-			if c > n {
-				c = n
-			}
-			out = append(out, c)
-			n -= c
-			rest := d - c
-			if d < 4 {
-				rest = 4 - c
-			}
-			if rest > n {
-				rest = n
-			}
-			if rest > 0 {
-				out = append(out, rest)
-				n -= rest
-			}
+		if pos+d > sent {
+			return want, false
 		}
-	case 3: // packet aligned
-		for _, d := range lens {
-			if d >= 4 && d <= n {
-				out = append(out, d)
-				n -= d
-			}
-		}
+		pos += d
+		want++
 	}
-	for n > 0 {
-		c := 1 + rng.Intn(1+rng.Intn(1+n))
+	return want, false
+}
+
+// frBoundary reports whether position sent is a packet boundary of the stream.
+func frBoundary(lens []int, maxLen, junk, sent int) bool {
+	pos := 0
+	for _, d := range lens {
+		if pos == sent {
+			return true
+		}
+		pos += frPhys(d, maxLen, junk)
+	}
+	return pos == sent
+}
+
+// frPartition chooses chunk sizes for the first n bytes of a stream.
+func frPartition(rng *rand.Rand, n int, lens []int, maxLen, junk int) []int {
+	var out []int
+	take := func(c int) {
 		if c > n {
 			c = n
 		}
-		out = append(out, c)
-		n -= c
+		if c > 0 {
+			out = append(out, c)
+			n -= c
+		}
+	}
+	switch rng.Intn(9) {
+	case 0: // single bytes (capped: long streams switch to random chunks after 300 bytes)
+		for n > 0 && len(out) < 300 {
+			take(1)
+		}
+	case 1: // everything at once
+		take(n)
+	case 2: // cut inside every header
+		for _, d := range lens {
+			c := 1 + rng.Intn(3)
+			take(c)
+			take(frPhys(d, maxLen, junk) - c)
+		}
+	case 3: // packet aligned
+		for _, d := range lens {
+			take(frPhys(d, maxLen, junk))
+		}
+	case 4: // exactly the header, then exactly the rest (an illegal header arrives alone, a body-less packet arrives alone)
+		for _, d := range lens {
+			take(4)
+			take(frPhys(d, maxLen, junk) - 4)
+		}
+	case 5, 6: // cuts next to the boundaries: 1, 3, 4, 5 bytes into a packet, one byte before its end, at its end - a random subset
+		pos, last := 0, 0
+		for _, d := range lens {
+			p := frPhys(d, maxLen, junk)
+			for _, off := range []int{1, 3, 4, 5, p - 1, p} {
+				if off > 0 && off <= p && pos+off > last && rng.Intn(2) == 0 {
+					take(pos + off - last)
+					last = pos + off
+				}
+			}
+			pos += p
+		}
+	}
+	for n > 0 {
+		take(1 + rng.Intn(1+rng.Intn(1+n)))
 	}
 	return out
+}
+
+// one connection of a run
+type frSeg struct {
+	lens   []int
+	junk   int
+	limit  int          // bytes of the stream the peer sends before it closes the connection (-1: the whole stream; only the last connection)
+	chunks []int        // partition of the bytes sent (nil: chosen at random)
+	pause  map[int]bool // chunk indices after which the peer stays silent for longer than the receiver's read timeout
+}
+
+type frScen struct {
+	kind   string // "random" or the name of a directed case
+	side   string // "server" | "client"
+	via    string // server: "direct" (protocol.TarsRequest) | "tars" (tars.Protocol.ParsePackage); client: "transport" (TarsClient + TarsRequest) | "proxy" (ServantProxy -> AdapterProxy.ParsePackage)
+	maxLen int
+	rt     time.Duration // ReadTimeout of the receiver (0: none)
+	segs   []frSeg
+}
+
+const frReadTimeout = 12 * time.Millisecond
+const frPause = 3*frReadTimeout + 6*time.Millisecond
+
+// frDirected: the boundary cases every run contains whatever the seed: an illegal prefix arriving alone / ending the stream, a
+// body-less packet alone / last, the exact maximum, silence longer than the read timeout inside a header / a payload, connections cut
+// inside a header / a payload / after a protocol error followed by a new connection of the same receiver.
+func frDirected() []frScen {
+	var out []frScen
+	const M, L = 16, 9
+	whole := func(lens []int, junk int, chunks []int) []frSeg {
+		return []frSeg{{lens: lens, junk: junk, limit: -1, chunks: chunks}}
+	}
+	type cs struct {
+		name string
+		rt   time.Duration
+		segs []frSeg
+	}
+	var cases []cs
+	for i, bad := range []int{3, M + 1, 0, 1 << 24} {
+		cases = append(cases,
+			cs{fmt.Sprintf("bad-prefix-alone-then-junk/%d", i), 0, whole([]int{L, bad}, 6, []int{L, 4, 6})},
+			cs{fmt.Sprintf("bad-prefix-ends-stream/%d", i), 0, whole([]int{L, bad}, 0, []int{L, 4})},
+			cs{fmt.Sprintf("bad-prefix-only/%d", i), 0, whole([]int{bad}, 0, []int{4})},
+			cs{fmt.Sprintf("bad-prefix-coalesced-ends-stream/%d", i), 0, whole([]int{L, L, bad}, 0, []int{2*L + 4})},
+		)
+	}
+	cases = append(cases,
+		cs{"min-packet-only", 0, whole([]int{4}, 6, []int{4})},
+		cs{"min-packet-last-coalesced", 0, whole([]int{L, 4}, 6, []int{L + 4})},
+		cs{"min-packet-last-alone", 0, whole([]int{L, 4}, 6, []int{L, 4})},
+		cs{"min-packet-last-split", 0, whole([]int{L, 4}, 6, []int{L + 1, 3})},
+		cs{"min-packets-coalesced", 0, whole([]int{4, 4, 4}, 6, []int{12})},
+		cs{"min-packet-first-alone", 0, whole([]int{4, L}, 6, []int{4, L})},
+		cs{"min-packet-middle", 0, whole([]int{L, 4, L}, 6, []int{L, 4, L})},
+		cs{"header-alone", 0, whole([]int{L, L}, 6, []int{4, L - 4, 4, L - 4})},
+		cs{"max-exact", 0, whole([]int{M, M}, 6, []int{4, M - 4, M})},
+		cs{"max-exact-bytes", 0, whole([]int{M, M, 5}, 6, nil)},
+		cs{"pause-in-header", frReadTimeout, []frSeg{{lens: []int{L, L}, junk: 6, limit: -1, chunks: []int{2, L - 2, L}, pause: map[int]bool{0: true}}}},
+		cs{"pause-after-header", frReadTimeout, []frSeg{{lens: []int{L, L}, junk: 6, limit: -1, chunks: []int{4, L - 4, L}, pause: map[int]bool{0: true}}}},
+		cs{"pause-in-payload", frReadTimeout, []frSeg{{lens: []int{L, L}, junk: 6, limit: -1, chunks: []int{L + 6, L - 6}, pause: map[int]bool{0: true}}}},
+		cs{"pause-in-second-header", frReadTimeout, []frSeg{{lens: []int{L, L, L}, junk: 6, limit: -1, chunks: []int{L + 3, L - 3, L}, pause: map[int]bool{0: true, 1: true}}}},
+		cs{"pause-at-boundary", frReadTimeout, []frSeg{{lens: []int{L, L}, junk: 6, limit: -1, chunks: []int{L, L}, pause: map[int]bool{0: true}}}},
+		cs{"pause-twice-in-one-packet", frReadTimeout, []frSeg{{lens: []int{M}, junk: 6, limit: -1, chunks: []int{3, 5, M - 8}, pause: map[int]bool{0: true, 1: true}}}},
+		cs{"cut-in-header", 0, []frSeg{{lens: []int{L, L}, junk: 6, limit: L + 2}, {lens: []int{L}, junk: 6, limit: -1}}},
+		cs{"cut-after-header", 0, []frSeg{{lens: []int{L, L}, junk: 6, limit: L + 4}, {lens: []int{L, 5}, junk: 6, limit: -1}}},
+		cs{"cut-in-payload", 0, []frSeg{{lens: []int{L, M}, junk: 6, limit: L + 9}, {lens: []int{L}, junk: 6, limit: -1}}},
+		cs{"cut-in-first-payload", 0, []frSeg{{lens: []int{M}, junk: 6, limit: M - 1}, {lens: []int{M, L}, junk: 6, limit: -1, chunks: []int{M + L}}}},
+		cs{"cut-at-boundary", 0, []frSeg{{lens: []int{L, L}, junk: 6, limit: L}, {lens: []int{L}, junk: 6, limit: -1}}},
+		cs{"cut-after-error", 0, []frSeg{{lens: []int{L, 3}, junk: 6, limit: L + 10}, {lens: []int{L}, junk: 6, limit: -1}}},
+		cs{"cut-twice", 0, []frSeg{{lens: []int{L, L}, junk: 6, limit: L + 3}, {lens: []int{M, L}, junk: 6, limit: M + 5}, {lens: []int{5, L}, junk: 6, limit: -1}}},
+		cs{"cut-in-payload-after-pause", frReadTimeout, []frSeg{{lens: []int{L, M}, junk: 6, limit: L + 9, chunks: []int{L + 2, 7}, pause: map[int]bool{0: true}}, {lens: []int{L}, junk: 6, limit: -1}}},
+	)
+	for _, sv := range [][2]string{{"server", "direct"}, {"server", "tars"}, {"client", "transport"}, {"client", "proxy"}} {
+		for _, c := range cases {
+			out = append(out, frScen{kind: c.name, side: sv[0], via: sv[1], maxLen: M, rt: c.rt, segs: c.segs})
+		}
+	}
+	return out
+}
+
+func frRandom(rng *rand.Rand, big bool) frScen {
+	maxLen := []int{16, 64, 1000, 100000, 10485760}[rng.Intn(5)]
+	cand := []int{4, 5, 6, 8, 12, 16, 33, 64, 100, 255, 1000, 4095, 4096, 4097, 9000, maxLen - 1, maxLen, maxLen, maxLen + 1, 0, 3, 1}
+	if big {
+		cand = append(cand, 65536, 1<<20)
+	}
+	sc := frScen{kind: "random", maxLen: maxLen}
+	sc.side = []string{"server", "client"}[rng.Intn(2)]
+	if sc.side == "server" {
+		sc.via = []string{"direct", "tars"}[rng.Intn(2)]
+	} else {
+		sc.via = []string{"transport", "proxy"}[rng.Intn(2)]
+	}
+	pauses := false
+	if rng.Intn(2) == 0 {
+		sc.rt = frReadTimeout
+		pauses = rng.Intn(3) != 0
+	}
+	nseg := 1
+	if rng.Intn(3) == 0 {
+		nseg = 2 + rng.Intn(2)
+	}
+	for si := 0; si < nseg; si++ {
+		var lens []int
+		for k := 1 + rng.Intn(5); k > 0; k-- {
+			d := cand[rng.Intn(len(cand))]
+			if d > 2<<20 { // do not really send 10 MB packets: only as an illegal length or the exact maximum when small
+				d = maxLen + 1
+			}
+			if (d < 4 || d > maxLen) && rng.Intn(3) != 0 {
+				d = cand[rng.Intn(12)]
+				if d > maxLen {
+					d = maxLen
+				}
+			}
+			lens = append(lens, d)
+		}
+		seg := frSeg{lens: lens, junk: []int{6, 6, 0}[rng.Intn(3)], limit: -1}
+		total := 0
+		for _, d := range lens {
+			total += frPhys(d, maxLen, seg.junk)
+		}
+		if si < nseg-1 {
+			// where the connection dies: next to a boundary of a random packet, or anywhere
+			k, pos := rng.Intn(len(lens)), 0
+			for _, d := range lens[:k] {
+				pos += frPhys(d, maxLen, seg.junk)
+			}
+			p := frPhys(lens[k], maxLen, seg.junk)
+			lim := pos + []int{1, 2, 3, 4, 5, p - 1, p, 1 + rng.Intn(p)}[rng.Intn(8)]
+			if rng.Intn(4) == 0 {
+				lim = 1 + rng.Intn(total)
+			}
+			if lim < 1 {
+				lim = 1
+			}
+			if lim > total {
+				lim = total
+			}
+			seg.limit = lim
+			total = lim
+		}
+		seg.chunks = frPartition(rng, total, lens, maxLen, seg.junk)
+		if pauses {
+			seg.pause = map[int]bool{}
+			sent := 0
+			for i, c := range seg.chunks[:len(seg.chunks)-1] {
+				sent += c
+				p := 6
+				if frBoundary(lens, maxLen, seg.junk, sent) {
+					p = 1
+				}
+				if len(seg.pause) < 2 && rng.Intn(10) < p {
+					seg.pause[i] = true
+				}
+			}
+		}
+		sc.segs = append(sc.segs, seg)
+	}
+	return sc
+}
+
+type frServer struct {
+	addr  string
+	other net.Conn // the healthy second connection
 }
 
 func framingTrace(args []string) error {
 	fs := flag.NewFlagSet("framing-trace", flag.ExitOnError)
 	seed := fs.Int64("seed", 1, "seed")
-	num := fs.Int("n", 100, "scenarios")
+	num := fs.Int("n", 100, "random scenarios")
 	out := fs.String("out", "trace.ndjson", "output")
 	big := fs.Bool("big", false, "include packets up to 1 MB")
+	dk := fs.Int("dk", 0, "run the directed scenarios with index = dk modulo dn")
+	dn := fs.Int("dn", 0, "0: no directed scenarios")
 	fs.Parse(args)
 	rng := rand.New(rand.NewSource(*seed))
 	vhook.Set(frHook)
-	const junk = 6
-	// real server
-	ln, _ := net.Listen("tcp", "127.0.0.1:0")
-	addr := ln.Addr().String()
-	ln.Close()
-	srv := transport.NewTarsServer(frSrvProto{}, &transport.TarsServerConf{Proto: "tcp", Address: addr, IdleTimeout: time.Hour,
-		TCPReadBuffer: 1 << 20, TCPWriteBuffer: 1 << 20})
-	if err := srv.Listen(); err != nil {
-		return err
+	// real servers: framing asked of protocol.TarsRequest directly / of tars.Protocol (what a real servant uses), without / with a read timeout
+	servers := map[string]*frServer{}
+	for _, via := range []string{"direct", "tars"} {
+		for _, rt := range []time.Duration{0, frReadTimeout} {
+			ln, _ := net.Listen("tcp", "127.0.0.1:0")
+			addr := ln.Addr().String()
+			ln.Close()
+			var sp transport.ServerProtocol = frSrvProto{}
+			if via == "tars" {
+				sp = frSrvTarsProto{p: tars.NewTarsProtocol(nil, nil, false)}
+			}
+			srv := transport.NewTarsServer(sp, &transport.TarsServerConf{Proto: "tcp", Address: addr, IdleTimeout: time.Hour,
+				ReadTimeout: rt, TCPReadBuffer: 1 << 20, TCPWriteBuffer: 1 << 20})
+			if err := srv.Listen(); err != nil {
+				return err
+			}
+			go srv.Serve()
+			other, err := net.Dial("tcp", addr)
+			if err != nil {
+				return err
+			}
+			servers[fmt.Sprint(via, rt)] = &frServer{addr: addr, other: other}
+		}
 	}
-	go srv.Serve()
-	// the healthy second server connection
-	other, err := net.Dial("tcp", addr)
-	if err != nil {
-		return err
-	}
+	comm := tars.NewCommunicator()
 	w, err := tr.Create(*out)
 	if err != nil {
 		return err
@@ -212,6 +437,20 @@ func framingTrace(args []string) error {
 		}
 		return false
 	}
+	// the read hook fires before the scan loop hands the packets over: give the receiver time (up to 5 s) to hand out every
+	// packet that is complete in what it has read (or to report the protocol error)
+	settle := func(want int, bad bool) {
+		for i := 0; i < 5000; i++ {
+			fr.mu.Lock()
+			got, pe := fr.pkgs, fr.perr
+			fr.mu.Unlock()
+			if got >= want && (pe || !bad) {
+				break
+			}
+			time.Sleep(time.Millisecond)
+		}
+		time.Sleep(300 * time.Microsecond)
+	}
 	sawClose := func(c net.Conn) bool {
 		c.SetReadDeadline(time.Now().Add(2 * time.Second))
 		buf := make([]byte, 16)
@@ -229,142 +468,212 @@ func framingTrace(args []string) error {
 		ne, ok := err.(net.Error)
 		return err != nil && ok && ne.Timeout()
 	}
+	var scens []frScen
+	if *dn > 0 {
+		for i, sc := range frDirected() {
+			if i%*dn == *dk {
+				scens = append(scens, sc)
+			}
+		}
+	}
+	ndirected := len(scens)
+	for i := 0; i < *num; i++ {
+		scens = append(scens, frRandom(rng, *big))
+	}
 	nfail := 0
-	for sc := 0; sc < *num; sc++ {
-		maxLen := []int{16, 64, 1000, 100000, 10485760}[rng.Intn(5)]
-		cand := []int{4, 5, 6, 8, 12, 16, 33, 64, 100, 255, 1000, 4095, 4096, 4097, 9000, maxLen - 1, maxLen, maxLen, maxLen + 1, 0, 3, 1}
-		if *big {
-			cand = append(cand, 65536, 1<<20)
-		}
-		var lens []int
-		for k := 1 + rng.Intn(5); k > 0; k-- {
-			d := cand[rng.Intn(len(cand))]
-			if d > 2<<20 { // do not really send 10 MB packets: only as an illegal length or the exact maximum when small
-				d = maxLen + 1
-			}
-			if (d < 4 || d > maxLen) && rng.Intn(3) != 0 {
-				d = cand[rng.Intn(12)]
-				if d > maxLen {
-					d = maxLen
-				}
-			}
-			lens = append(lens, d)
-		}
+	for idx, sc := range scens {
+		maxLen := sc.maxLen
 		protocol.SetMaxPackageLength(maxLen)
-		stream := frStream(lens, maxLen, junk)
-		side := []string{"server", "client"}[rng.Intn(2)]
 		rec := tr.New()
-		rec.Emit("Stream", "lens", lens, "maxlen", maxLen, "side", side, "junk", junk)
-		hasBad := false
-		for _, d := range lens {
-			if d < 4 || d > maxLen {
-				hasBad = true
-			}
-		}
-		var peer net.Conn // the harness end of the observed connection
-		var cleanup func()
 		fr.mu.Lock()
-		fr.rec, fr.side, fr.readSum, fr.pkgs, fr.other, fr.perr = rec, side, 0, 0, 0, false
+		fr.rec, fr.side, fr.match, fr.other = rec, sc.side, nil, 0
 		fr.mu.Unlock()
-		if side == "server" {
-			c, err := net.Dial("tcp", addr)
-			if err != nil {
-				return err
-			}
-			peer = c
-			la := c.LocalAddr().String()
-			fr.mu.Lock()
-			fr.match = func(sc net.Conn) bool { return sc.RemoteAddr().String() == la }
-			fr.mu.Unlock()
-			cleanup = func() { c.Close() }
+		var cleanup []func()
+		// the receiver's end
+		var srv *frServer
+		var l2 net.Listener
+		var acc chan net.Conn
+		var open func() error // makes the client (re)connect
+		if sc.side == "server" {
+			srv = servers[fmt.Sprint(sc.via, sc.rt)]
 		} else {
-			l2, err := net.Listen("tcp", "127.0.0.1:0")
-			if err != nil {
+			var err error
+			if l2, err = net.Listen("tcp", "127.0.0.1:0"); err != nil {
 				return err
 			}
-			acc := make(chan net.Conn, 1)
-			go func() { c, _ := l2.Accept(); acc <- c }()
-			cli := transport.NewTarsClient(l2.Addr().String(), frCliProto{}, &transport.TarsClientConf{Proto: "tcp", QueueLen: 10,
-				IdleTimeout: time.Hour, DialTimeout: time.Second})
-			ra := l2.Addr().String()
-			fr.mu.Lock()
-			fr.match = func(cc net.Conn) bool { return cc.RemoteAddr().String() == ra }
-			fr.mu.Unlock()
-			if err := cli.Send([]byte{0, 0, 0, 4}); err != nil {
-				return err
-			}
-			peer = <-acc
-			cleanup = func() { peer.Close(); cli.Close(); l2.Close() }
-		}
-		sent := 0
-		ok := true
-		for _, c := range frPartition(rng, len(stream), lens) {
-			peer.SetWriteDeadline(time.Now().Add(2 * time.Second))
-			if _, err := peer.Write(stream[sent : sent+c]); err != nil {
-				break // the receiver closed after a protocol error
-			}
-			sent += c
-			if !waitRead(sent) {
-				// after a protocol error the receiver stops reading: expected.  Otherwise the receiver did not consume the
-				// chunk within the harness' patience (a loaded machine): the run says nothing, it is marked and dropped
-				fr.mu.Lock()
-				pe := fr.perr
-				fr.mu.Unlock()
-				if !pe {
-					rec.Emit("HarnessTimeout")
+			acc = make(chan net.Conn, 4)
+			go func() {
+				for {
+					c, err := l2.Accept()
+					if err != nil {
+						return
+					}
+					acc <- c
 				}
-				ok = false
-				break
+			}()
+			cleanup = append(cleanup, func() { l2.Close() })
+			if sc.via == "transport" {
+				cli := transport.NewTarsClient(l2.Addr().String(), frCliProto{}, &transport.TarsClientConf{Proto: "tcp", QueueLen: 10,
+					IdleTimeout: time.Hour, DialTimeout: time.Second, ReadTimeout: sc.rt})
+				open = func() error { return cli.Send([]byte{0, 0, 0, 4}) }
+				cleanup = append(cleanup, cli.Close)
+			} else {
+				// a real servant proxy on a direct endpoint: its AdapterProxy is the ClientProtocol of the transport; a one-way call
+				// makes it (re)connect and expects no answer
+				comm.Client.ClientReadTimeout = sc.rt
+				obj := fmt.Sprintf("Fr.S%dx%d.Obj@tcp -h 127.0.0.1 -p %d -t 60000", *seed, idx, l2.Addr().(*net.TCPAddr).Port)
+				sp := tars.NewServantProxy(comm, obj)
+				open = func() error {
+					var resp requestf.ResponsePacket
+					return sp.TarsInvoke(context.Background(), byte(basef.TARSONEWAY), "ping", []byte{}, nil, nil, &resp)
+				}
 			}
 		}
-		_ = ok
-		// the read hook fires before the scan loop hands the packets over: give the receiver time (up to 5 s) to hand
-		// out every legal packet before the first illegal length (or to report the protocol error)
-		want := 0
-		for _, d := range lens {
-			if d < 4 || d > maxLen {
-				break
+		aborted := false
+		for si, seg := range sc.segs {
+			last := si == len(sc.segs)-1
+			stream := frStream(seg.lens, maxLen, seg.junk)
+			limit := seg.limit
+			if limit < 0 || last {
+				limit = len(stream)
 			}
-			want++
-		}
-		for i := 0; i < 5000; i++ {
+			chunks := seg.chunks
+			if chunks == nil {
+				chunks = frPartition(rng, limit, seg.lens, maxLen, seg.junk)
+			}
+			rec.Emit("Stream", "lens", seg.lens, "maxlen", maxLen, "side", sc.side, "via", sc.via, "junk", seg.junk, "conn", si+1,
+				"rt", int(sc.rt/time.Millisecond), "kind", sc.kind)
 			fr.mu.Lock()
-			got, pe := fr.pkgs, fr.perr
+			fr.match, fr.readSum, fr.pkgs, fr.perr, fr.exited = nil, 0, 0, false, false
 			fr.mu.Unlock()
-			if got >= want && (pe || !hasBad) {
-				break
-			}
-			time.Sleep(time.Millisecond)
-		}
-		time.Sleep(300 * time.Microsecond)
-		if hasBad {
-			if sawClose(peer) {
-				rec.Emit("PeerSawClose")
-			}
-			if side == "server" {
-				// the healthy connection still gets its packet through
+			var peer net.Conn // the harness end of the observed connection
+			if sc.side == "server" {
+				c, err := net.Dial("tcp", srv.addr)
+				if err != nil {
+					return err
+				}
+				peer = c
+				la := c.LocalAddr().String()
 				fr.mu.Lock()
-				before := fr.other
+				fr.match = func(sc net.Conn) bool { return sc.RemoteAddr().String() == la }
 				fr.mu.Unlock()
-				other.Write([]byte{0, 0, 0, 5, 77})
-				for i := 0; i < 2000; i++ {
+			} else {
+				if err := open(); err != nil {
+					return fmt.Errorf("the client cannot (re)connect: %v", err)
+				}
+				select {
+				case peer = <-acc:
+				case <-time.After(5 * time.Second):
+					return fmt.Errorf("the client did not connect (scenario %d connection %d)", idx, si+1)
+				}
+				ra := peer.RemoteAddr().String()
+				fr.mu.Lock()
+				fr.match = func(cc net.Conn) bool { return cc.LocalAddr().String() == ra }
+				fr.mu.Unlock()
+			}
+			sent := 0
+			for ci, c := range chunks {
+				peer.SetWriteDeadline(time.Now().Add(2 * time.Second))
+				if _, err := peer.Write(stream[sent : sent+c]); err != nil {
+					break // the receiver closed after a protocol error
+				}
+				sent += c
+				if !waitRead(sent) {
+					// after a protocol error the receiver stops reading: expected.  Otherwise the receiver did not consume the
+					// chunk within the harness' patience (a loaded machine): the run says nothing, it is marked and dropped
 					fr.mu.Lock()
-					o := fr.other
+					pe := fr.perr
 					fr.mu.Unlock()
-					if o > before {
-						rec.Emit("OtherConnOk")
+					if !pe {
+						rec.Emit("HarnessTimeout")
+						aborted = true
+					}
+					break
+				}
+				if seg.pause[ci] && sc.rt > 0 {
+					// the peer goes silent for longer than the receiver's read timeout, once the receiver has dealt with what it has
+					// got (a receiver that has closed after a protocol error is not paused)
+					settle(frExpect(seg.lens, maxLen, seg.junk, sent))
+					fr.mu.Lock()
+					pe := fr.perr
+					fr.mu.Unlock()
+					if pe {
 						break
 					}
-					time.Sleep(time.Millisecond)
+					rec.Emit("Pause", "ms", int(frPause/time.Millisecond), "buffered", !frBoundary(seg.lens, maxLen, seg.junk, sent))
+					time.Sleep(frPause)
 				}
 			}
-		} else if stillOpen(peer) {
-			rec.Emit("PeerStillOpen")
+			if aborted {
+				peer.Close()
+				break
+			}
+			want, bad := frExpect(seg.lens, maxLen, seg.junk, sent)
+			settle(want, bad)
+			if !last {
+				// the connection dies here, wherever in the stream that is; the next connection of the same receiver follows
+				rec.Emit("Cut", "sent", sent, "inside", !frBoundary(seg.lens, maxLen, seg.junk, sent))
+				if sc.side == "client" && (idx+si)%2 == 0 {
+					// take what the client has written first: the connection then ends with FIN (the client reads EOF); otherwise
+					// the unread bytes make the kernel reset it (the client's read fails with ECONNRESET)
+					peer.SetReadDeadline(time.Now().Add(2 * time.Millisecond))
+					for {
+						if _, err := peer.Read(make([]byte, 4096)); err != nil {
+							break
+						}
+					}
+				}
+				peer.Close()
+				if sc.side == "client" {
+					ok := false
+					for i := 0; i < 5000 && !ok; i++ { // the client has to notice before it is asked to send again
+						fr.mu.Lock()
+						ok = fr.exited
+						fr.mu.Unlock()
+						if !ok {
+							time.Sleep(time.Millisecond)
+						}
+					}
+					if !ok {
+						rec.Emit("HarnessTimeout")
+						aborted = true
+						break
+					}
+				}
+				continue
+			}
+			cleanup = append(cleanup, func() { peer.Close() })
+			if bad {
+				if sawClose(peer) {
+					rec.Emit("PeerSawClose")
+				}
+				if sc.side == "server" {
+					// the healthy connection still gets its packet through
+					fr.mu.Lock()
+					before := fr.other
+					fr.mu.Unlock()
+					srv.other.Write([]byte{0, 0, 0, 5, 77})
+					for i := 0; i < 2000; i++ {
+						fr.mu.Lock()
+						o := fr.other
+						fr.mu.Unlock()
+						if o > before {
+							rec.Emit("OtherConnOk")
+							break
+						}
+						time.Sleep(time.Millisecond)
+					}
+				}
+			} else if stillOpen(peer) {
+				rec.Emit("PeerStillOpen")
+			}
 		}
 		fr.mu.Lock()
 		fr.rec = nil
 		fr.mu.Unlock()
-		cleanup()
+		for i := len(cleanup) - 1; i >= 0; i-- {
+			cleanup[i]()
+		}
 		evs := rec.Close()
 		for _, ev := range evs {
 			w.Write(ev)
@@ -376,7 +685,7 @@ func framingTrace(args []string) error {
 		return err
 	}
 	fr.mu.Lock()
-	fmt.Println(*num, nfail, fr.hookHits["tcp.recv.read"], fr.hookHits["tcp.handleConn"], fr.hookHits["client.recv.read"], fr.hookHits["client.recv.pkg"],
+	fmt.Println(ndirected, len(scens), nfail, fr.hookHits["tcp.recv.read"], fr.hookHits["tcp.handleConn"], fr.hookHits["client.recv.read"], fr.hookHits["client.recv.pkg"],
 		fr.hookHits["tcp.recv.parseError"]+fr.hookHits["client.recv.parseError"])
 	fr.mu.Unlock()
 	return nil
